@@ -277,7 +277,7 @@ class C14(LineCheck):
 
     def distribution(self, cases):
         fn = getattr(self, "fn_runs", {})
-        return {"corpus_programs": self.n_corpus, "programs": len(cases), "runs_per_program": self.repeat,
+        return {"corpus_programs": getattr(self, "n_corpus", 0), "programs": len(cases), "runs_per_program": self.repeat,
                 "idle_timeout_programs": len(getattr(self, "idle", [])),
                 "stress_runs": getattr(self, "stress_runs", 0), "stress_not_finished": getattr(self, "stress_incomplete", 0),
                 "stress_counters": getattr(self, "stress_counters", {}),
